@@ -270,4 +270,123 @@ example : DictKeysNodup exShared ∧
     (nestedEnters (hfinal copyH exShared (.ref 0))).length = 2 := by
   refine ⟨by simp [DictKeysNodup, exShared], by decide +kernel, by decide +kernel, by decide +kernel⟩
 
+
+/-! ## research as a function of the query (truthy / falsy / raising), both root conventions -/
+
+/-- every `(path, value)` that `research` reports is a nested item retrievable with `get_path` - unless its
+    path leads into a set / frozenset (the known finding) - or is the root's own entry `((None,), root)`,
+    which only an implementation that queries the root (`rootQ`) reports; whatever the query answers or
+    raises, with and without re-raising. -/
+theorem research_paths_correct_partial (rootQ reraise : Bool) (q : Path → Key → Val → Option Bool)
+    (kd : Kind) (its : Items) (hw : WFKeys (.node kd its)) (l : List (Path × Val))
+    (hr : research rootQ q reraise (.node kd its) = some l) (pv : Path × Val) (hm : pv ∈ l) :
+    (rootQ = true ∧ pv = ([.none], .node kd its)) ∨
+    (setOnPath (.node kd its) pv.1 = false → getPath (.node kd its) pv.1 = some pv.2) := by
+  obtain ⟨e, he, _, rfl⟩ := researchRun_mem q reraise _ l hr pv hm
+  simp only [researchCalls, List.mem_append] at he
+  rcases he with he | he
+  · left
+    cases rootQ with
+    | false => simp at he
+    | true => simp at he; subst he; simp
+  · right
+    intro hs
+    exact nested_paths_retrievable kd its hw e he hs
+
+/-- the two conventions differ by the root's own entry and nothing else: when both calls return, the one
+    that queries the root reports what the other reports, preceded by `((None,), root)` if the query is
+    truthy on the root -/
+theorem research_root_convention (reraise : Bool) (q : Path → Key → Val → Option Bool) (root : Val)
+    (l0 l1 : List (Path × Val))
+    (h0 : research false q reraise root = some l0) (h1 : research true q reraise root = some l1) :
+    l1 = l0 ∨ l1 = ([.none], root) :: l0 := by
+  simp only [research, researchCalls, if_true, List.singleton_append, Bool.false_eq_true, if_false,
+    List.nil_append] at h0 h1
+  simp only [researchRun] at h1
+  split at h1
+  · split at h1
+    · simp at h1
+    · left; rw [h0] at h1; injection h1 with h1; exact h1.symm
+  · left; rw [h0] at h1; injection h1 with h1; exact h1.symm
+  · right; rw [h0] at h1; simp at h1; exact h1.symm
+
+/-- `get_path(root, path, default)`: the default replaces the `PathAccessError` and nothing else -/
+theorem get_path_default (root : Val) (path : Path) (d : Val) :
+    (∀ v, getPath root path = some v → getPathD root path d = v) ∧
+    (getPath root path = none → getPathD root path d = d) := by
+  constructor
+  · intro v h; simp [getPathD, h]
+  · intro h; simp [getPathD, h]
+
+
+/-- non-vacuity: on `{'k': [7, (None,)]}` a query that raises on ints and is truthy otherwise, not
+    re-raised, reports the three non-int nested items; re-raised, the call fails; the root convention
+    adds `((None,), root)` in front -/
+example :
+    (research false (fun _ _ v => match v with | .leaf (.int _) => none | _ => some true) false exP).map
+        (fun l => l.map Prod.fst) = some [[.str "k"], [.str "k", .int 1], [.str "k", .int 1, .int 0]] ∧
+    (research false (fun _ _ v => match v with | .leaf (.int _) => none | _ => some true) true exP).isNone ∧
+    (research true (fun _ _ _ => some true) true exP).map (fun l => l.map Prod.fst) =
+      some [[.none], [.str "k"], [.str "k", .int 0], [.str "k", .int 1], [.str "k", .int 1, .int 0]] := by
+  refine ⟨by rfl, by rfl, by rfl⟩
+
+/-- `remap`'s first `enter` call is the root's own (empty path, key `None`), whatever the heap and the
+    visit callback: this is the call an implementation of `research` may or may not hand to the query -/
+theorem remap_enters_root_first (c : HCfg) (h : Heap) (root : Obj) :
+    ∀ e ∈ (enterLog (hfinal c h root).trace).take 1, e = ([], Atom.none, root) :=
+  first_enter_is_root c h root
+
+/-- heap level (sharing and cycles included): every `(path, value)` that `research` reports is retrievable
+    with `get_path` unless the path leads into a set / frozenset, or is the root's own entry -/
+theorem hresearch_paths_correct_partial (rootQ reraise : Bool) (q : Path → Key → Obj → Option Bool)
+    (h : Heap) (root : Obj) (hd : DictKeysNodup h) (l : List (Path × Obj))
+    (hr : hresearch rootQ q reraise h root = some l) (pv : Path × Obj) (hm : pv ∈ l) :
+    (rootQ = true ∧ pv = ([.none], root)) ∨
+    (hsetOnPath h root pv.1 = false → hgetPath h root pv.1 = some pv.2) := by
+  obtain ⟨e, he, _, rfl⟩ := researchRun_mem q reraise _ l hr pv hm
+  simp only [hresearchCalls, List.mem_append] at he
+  rcases he with he | he
+  · left
+    cases rootQ with
+    | false => simp at he
+    | true =>
+      refine ⟨rfl, ?_⟩
+      simp only [if_true] at he
+      rw [first_enter_is_root _ h root e he]; rfl
+  · right
+    intro hs
+    rw [hgetPath_eq_of_noSet h root _ hs]
+    exact LogOK_final _ h root hd e he
+
+example : (hresearch true (fun _ _ _ => some true) false exShared (.ref 0)).map (fun l => l.map Prod.fst) =
+    some [[.none], [.int 0], [.int 0, .int 0]] := by decide +kernel
+
+/-! ## custom `enter` / `exit` callbacks -/
+
+/-- For ARBITRARY `enter`, `visit` and `exit` callbacks (an `enter` that refuses to traverse, prunes,
+    reorders or invents items and new parents; an `exit` that builds anything from path, key, old
+    parent, new parent and new items): whenever the bottom-up recursion `gRoot` returns - a value or the
+    `TypeError` for a root that `enter` does not traverse - `remap`'s explicit-stack loop returns exactly
+    that after finitely many iterations, and keeps returning it however long it is run. -/
+theorem custom_callbacks_loop_eq_rec (c : GCfg) (n : Nat) (root : Val) (r : GRes)
+    (hr : gRoot c n root = some r) :
+    ∃ m, ∀ m', m ≤ m' → gRemapIter c m' root = some r :=
+  gRemap_eq_rec_aux c n root r hr
+
+/-- non-vacuity: `{'a': [1, frozenset({None})], None: ()}` with tuples not traversed and an exit that
+    returns `(key, len(old_parent), default_exit(...))`: the recursion returns -/
+example : ∃ v, gRoot (progCfg (.skipKind .tuple) [] .keyOld) 12 exT = some (.ok v) := ⟨_, rfl⟩
+
+/-- an `enter` that does not traverse the root: `TypeError`, from the recursion and from the loop -/
+example : gRoot (progCfg (.depthLimit 0) [] .dflt) 1 exT = some .typeError ∧
+    ∃ m, ∀ m', m ≤ m' → gRemapIter (progCfg (.depthLimit 0) [] .dflt) m' exT = some .typeError :=
+  ⟨rfl, custom_callbacks_loop_eq_rec _ 1 _ _ rfl⟩
+
+/-- the generic model specialises to the main one: with `default_enter` / `default_exit` plugged in,
+    the generic recursion (fuel > size) is the bottom-up rebuild `remapRec` of `remap_eq_rec` -/
+theorem custom_callbacks_generalise_default (vf : VisitFn Val) (kd : Kind) (its : Items) (n : Nat)
+    (hn : isize its < n) :
+    gRoot (dflt vf) n (.node kd its) = some (.ok (remapRec ⟨vf, defaultExit⟩ (.node kd its))) :=
+  gRoot_default vf kd its n hn
+
 end C08
